@@ -2857,7 +2857,7 @@ func lemmaForwardSession(raw *rawEnvelope) (e *Session, e3 *Session, accepted bo
 //@ spec fn ctxKey(c context.Context) interface{} = uninterpreted
 //@ spec fn ctxVal(c context.Context) interface{} = uninterpreted
 //@ spec fn baseValue(c context.Context, k interface{}) interface{} = uninterpreted
-//@ spec fn rec ctxValue(c context.Context, k interface{}) interface{} = ite(isWithValue(c), ite(ctxKey(c) == k, ctxVal(c), ctxValue(ctxParent(c), k)), baseValue(c, k))
+//@ spec fn rec ctxValue(c context.Context, k interface{}) interface{} = ite(isWithValue(c), ite(ctxKey(c) == k, ctxVal(c), ctxValue(ctxParent(c), k)), baseValue(c, k)) go: c.Value(k)
 
 // The three context keys are package-level variables initialised with distinct
 // strings and never written afterwards.
